@@ -31,6 +31,7 @@ PROP = "C15"
 MAXLVL = 10                     # RoleManager max_hierarchy_level: has_link follows fewer than 10 assignments
 A = mgmt.ATOMS.a
 DEEP = [A("r%d" % i) for i in range(1, 15)]    # interned at import time so that replays decode the same atoms
+from .. import c15_conf as cf                  # noqa: E402  (after DEEP: it interns its own atoms at import time)
 
 
 # ----------------------------------------------------------------------------- non-termination guard
@@ -84,24 +85,32 @@ IMPL_KW = dict(enforcer_cls=GuardedEnforcer)
 
 
 # ----------------------------------------------------------------------------- independent graph spec
-def reach_plus(edges, u):
+def reach_plus(edges, u, nm=None):
+    """nm (configured strata): the name matching function in force - a name holds what is assigned to a pattern it matches"""
     out, front = set(), {u}
     while front:
-        nxt = {b for a, b in edges if a in front} - out
+        if nm is None:
+            nxt = {b for a, b in edges if a in front} - out
+        else:
+            nxt = {b for a, b in edges if any(nm(x, a) for x in front)} - out
         out |= nxt
         front = nxt
     return out
 
 
-def depth_ok(edges, u):
-    """everything reachable from u is reachable in fewer than MAXLVL assignments (shallow, Props/C15.v)"""
+def depth_ok(edges, u, maxlvl=MAXLVL, nm=None):
+    """everything reachable from u is reachable in fewer than MAXLVL assignments (shallow, Props/C15.v); maxlvl = the
+    bound of the role manager in force (configured strata)"""
     dist, front, seen = 0, {u}, {u}
     while front:
-        nxt = {b for a, b in edges if a in front} - seen
+        if nm is None:
+            nxt = {b for a, b in edges if a in front} - seen
+        else:
+            nxt = {b for a, b in edges if any(nm(x, a) for x in front)} - seen
         if not nxt:
             return True
         dist += 1
-        if dist >= MAXLVL:
+        if dist >= maxlvl:
             return False
         seen |= nxt
         front = nxt
@@ -143,8 +152,13 @@ def query_ops(kind, rows):
     return ops
 
 
-def spec_check(kind, rows, lf, ops, obs, impl):
-    """returns [(step, message)] for the first violated clause"""
+def spec_check(kind, rows, lf, ops, obs, impl, conf=None):
+    """returns [(step, message)] for the first violated clause.  conf (configured strata, harness/c15_conf.py): the
+    configuration of the role manager in force - its hierarchy bound, and whether a name / domain matching function is
+    registered (None = the default configuration: bound 10, names and domains compared by equality)"""
+    maxlvl = conf.maxlvl if conf else MAXLVL
+    nm = conf.name_match() if conf else None
+    dm = conf.dom_match() if conf else None
     res = {}
     for i, (op, o) in enumerate(zip(ops, obs)):
         if op[0] < 50:
@@ -159,6 +173,8 @@ def spec_check(kind, rows, lf, ops, obs, impl):
     g_roles = {r[1] for r in g}
 
     def edges_of(d):
+        if dm is not None and kind.dom:
+            return {(r[0], r[1]) for r in g if dm(d, r[2])}
         return {(r[0], r[1]) for r in g if (not kind.dom or r[2] == d)}
 
     for key, (i, r) in res.items():
@@ -168,11 +184,11 @@ def spec_check(kind, rows, lf, ops, obs, impl):
             u, d = key[1], key[2]
             if len(v) != len(set(v)):
                 return [(i, "get_implicit_roles_for_user reports a role twice")]
-            if set(v) != reach_plus(edges_of(d), u):
+            if set(v) != reach_plus(edges_of(d), u, nm):
                 return [(i, "get_implicit_roles_for_user is not the set of roles reachable from the user")]
         elif c == 61:
             u, d = key[1], key[2]
-            who = {u} | reach_plus(edges_of(d), u)
+            who = {u} | reach_plus(edges_of(d), u, nm)
             want = [x for x in p if x[i_sub] in who and (not kind.dom or x[i_dom] == d)]
             if kind.dom and any(x[i_dom] != d for x in v):
                 return [(i, "get_implicit_permissions_for_user reports a rule of another domain")]
@@ -182,7 +198,7 @@ def spec_check(kind, rows, lf, ops, obs, impl):
             req = key[1]
             u, d, o_, a = (req[0], req[1], req[2], req[3]) if kind.dom else (req[0], 0, req[1], req[2])
             pk = (61, u, d)
-            if pk in res and depth_ok(edges_of(d), u):
+            if pk in res and depth_ok(edges_of(d), u, maxlvl, nm):
                 perms = res[pk][1][1]
                 has = any(x[i_obj] == o_ and x[i_act] == a for x in perms)
                 if bool(v) != has:
@@ -225,7 +241,12 @@ def spec_check(kind, rows, lf, ops, obs, impl):
                             want.add(tuple(y))
             if len(v) != len(set(map(tuple, v))):
                 return [(i, "get_implicit_users_for_resource reports a rule twice")]
-            if set(map(tuple, v)) != want:
+            if nm is not None:
+                # the direct users of a role include the names that were asked about before and match a user pattern:
+                # every listed rule is demanded to be granted (below), every rule of the literal users to be listed
+                if not want <= set(map(tuple, v)):
+                    return [(i, "get_implicit_users_for_resource misses a rule of a role's direct user")]
+            elif set(map(tuple, v)) != want:
                 return [(i, "get_implicit_users_for_resource is not the rules on the resource with role subjects replaced by the role's direct users")]
             for x in v:
                 k2 = (50, tuple(x))
@@ -235,13 +256,18 @@ def spec_check(kind, rows, lf, ops, obs, impl):
             u, d = key[1], (key[2] if c == 57 else 0)
             if len(v) != len(set(v)):
                 return [(i, "get_roles_for_user reports a role twice")]
-            if set(v) != {b for a_, b in edges_of(d) if a_ == u}:
+            if set(v) != {b for a_, b in edges_of(d) if (a_ == u or (nm is not None and nm(u, a_)))}:
                 return [(i, "get_roles_for_user is not the set of roles assigned to the user by the grouping rules")]
         elif c in (56, 58):
             r_, d = key[1], (key[2] if c == 58 else 0)
             if len(v) != len(set(v)):
                 return [(i, "get_users_for_role reports a user twice")]
-            if set(v) != {a_ for a_, b in edges_of(d) if b == r_}:
+            lit = {a_ for a_, b in edges_of(d) if b == r_}
+            if nm is not None:
+                # besides the users written in the grouping rules, the names looked up so far that match one of them
+                if not lit <= set(v) or any(not any(nm(u, a_) for a_ in lit) for u in v):
+                    return [(i, "get_users_for_role is not the set of users assigned to the role by the grouping rules")]
+            elif set(v) != lit:
                 return [(i, "get_users_for_role is not the set of users assigned to the role by the grouping rules")]
             # inverse view, stated directly on the two observations
             for u in v:
@@ -253,6 +279,8 @@ def spec_check(kind, rows, lf, ops, obs, impl):
             u, d = key[1], (key[2] if key[0] == 57 else 0)
             for ro in r[1]:
                 k2 = (58, ro, d) if key[0] == 57 else (56, ro)
+                if nm is not None and k2 in res and res[k2][0] < i:
+                    continue        # the role's users were listed before this name was first looked up
                 if k2 in res and u not in res[k2][1][1]:
                     return [(i, "get_users_for_role and get_roles_for_user are not inverse views")]
     return []
@@ -561,7 +589,115 @@ def run_repeated_lines(chk, n, strata):
         strata[f"repeated_g_lines_{kn}"] = len(cases)
 
 
-def run(chk, n_random, max_g, max_p, cap, n_deep):
+# ----------------------------------------------------------------------------- enforcers in non-default configurations
+def spec_check_conf(kind, rows, lf, ops, obs, impl=None):
+    """T1-T6 on every maximal block of queries, each against the policy AND the role-manager configuration in force at
+    that block (ops 90/91/92 of harness/c15_conf.py change the configuration; everything below 50 changes the policy)"""
+    conf = cf.Conf()
+    i, n = 0, min(len(ops), len(obs))
+    while i < n:
+        c = ops[i][0]
+        if not (50 <= c < 90):
+            conf = cf.step_conf(conf, ops[i])
+            if obs[i][0][0] != 0 and c >= 90:
+                return [(i, "a configuration call of the public API raised")]
+            i += 1
+            continue
+        j = i
+        while j < n and 50 <= ops[j][0] < 90:
+            j += 1
+        v = spec_check(kind, rows, lf, ops[i:j], obs[i:j], impl, conf=None if conf.default() else conf)
+        if v:
+            return [(i + v[0][0], v[0][1], conf)]
+        i = j
+    return []
+
+
+def conf_key(kind, rows, ops):
+    return (kind.name, "configured", repr(rows), tuple(repr(o) for o in ops if not (50 <= o[0] < 90)))
+
+
+def run_conf_cases(chk, kind, cases, label, max_report=3):
+    """own runner (the configurations are outside the Mgmt model: nothing is compared with it; the clauses are evaluated
+    on the implementation's own answers)"""
+    reported = 0
+    for n, (rows, lf, ops) in enumerate(cases):
+        if _hangs[0]:
+            chk.notes.append(f"{label}: stopped after {n} of {len(cases)} cases (a query did not terminate)")
+            break
+        impl, obs = cf.run_impl(kind, rows, lf, ops, **IMPL_KW)
+        chk.count(conf_key(kind, rows, ops))
+        if n % max(1, len(cases) // 2) == 0:
+            chk.sample(dict(kind=kind.name, stratum=label, initial_rows=[[pt, mgmt.S(r)] for pt, r in rows],
+                            history=[cf.pretty_op(o) for o in ops if not (50 <= o[0] < 90)][:12], n_ops=len(ops)), cap=10)
+        viol = spec_check_conf(kind, rows, lf, ops, obs)
+        if not viol:
+            continue
+        step, msg, conf = viol[0]
+        small = list(ops[:step + 1])
+        ob = obs
+        if reported < max_report:
+            def fails(cand, _msg=msg):
+                _, o2 = cf.run_impl(kind, rows, lf, cand, **IMPL_KW)
+                return any(x[1] == _msg for x in spec_check_conf(kind, rows, lf, cand, o2))
+            try:
+                small = mgmt.shrink(small, fails, max_rounds=600)
+                _, ob = cf.run_impl(kind, rows, lf, small, **IMPL_KW)
+                v2 = [x for x in spec_check_conf(kind, rows, lf, small, ob) if x[1] == msg]
+                step, conf = (v2[0][0], v2[0][2]) if v2 else (len(small) - 1, conf)
+            except Exception:  # noqa
+                small, ob, step = list(ops[:step + 1]), obs, step
+        reported += 1
+        chk.spec_fail(dict(layout="configured", kind=kind.name, kind_wire=kind.wire(), stratum=label, load_first=lf,
+                           initial_rows=[[pt, r] for pt, r in rows], ops=[list(o) for o in small],
+                           readable=dict(initial_rows=[[pt, mgmt.S(r)] for pt, r in rows],
+                                         history=[cf.pretty_op(o) for o in small],
+                                         configuration_at_the_failing_query=conf.describe())),
+                      dict(observation_at_failing_step=ob[step][0] if step < len(ob) else None), "see 'what'", msg, None)
+    chk.traces += len(cases)
+
+
+def replay_conf(chk):
+    import json
+    import sys
+    c = json.load(open(chk.replay_file)).get("case") or {}
+    w = c["kind_wire"]
+    kind = mgmt.Kind(c["kind"], *[bool(x) for x in w[:5]], eff=w[5], adapter=bool(w[6]), watcher=w[7])
+    rows = [(pt, r) for pt, r in c["initial_rows"]]
+    ops = [tuple(o) for o in c["ops"]]
+    lf = c.get("load_first", True)
+    impl, obs = cf.run_impl(kind, rows, lf, ops, **IMPL_KW)
+    viol = spec_check_conf(kind, rows, lf, ops, obs)
+    print("replay history:", [cf.pretty_op(o) for o in ops])
+    print("  spec violations on the implementation:", [(v[0], v[1], v[2].describe()) for v in viol[:3]])
+    if viol:
+        print("  observation at the failing step:", obs[viol[0][0]][0])
+        print(f"VIOLATION property={chk.prop} replay={chk.replay_file}")
+        sys.exit(1)
+    print("replay passes: the implementation satisfies the spec on this history (configured enforcer; no model comparison)")
+    sys.exit(0)
+
+
+def run_configured(chk, n, strata):
+    """C15's clauses on enforcers whose role manager is not the default one (see harness/c15_conf.py)"""
+    rng = chk.rng
+    chain = DEEP + cf.DEEP_MORE
+    for kn in ("rbac", "dom"):
+        kind = mgmt.KINDS[kn]
+        plan = [("configured-depth", lambda k=kind: cf.depth_cases(k, rng, n, chain)),
+                ("configured-name-matcher", lambda k=kind: cf.matcher_cases(k, rng, n, "name"))]
+        if kind.dom:
+            plan += [("configured-domain-matcher", lambda k=kind: cf.matcher_cases(k, rng, n, "domain")),
+                     ("configured-both-matchers", lambda k=kind: cf.matcher_cases(k, rng, max(4, n // 2), "both"))]
+        for label, mk in plan:
+            if _hangs[0]:
+                return
+            cases = list(mk())
+            run_conf_cases(chk, kind, cases, f"{label}-{kn}")
+            strata[f"{label}-{kn}".replace("-", "_")] = len(cases)
+
+
+def run(chk, n_random, max_g, max_p, cap, n_deep, n_conf):
     rng = chk.rng
     strata = chk.extra.setdefault("strata", {})
     full_cover = True
@@ -597,6 +733,7 @@ def run(chk, n_random, max_g, max_p, cap, n_deep):
             cases.append((rows, True, query_ops(kind, rows)))
         run_stratum(chk, kind, cases, f"random-{kn}")
         strata[f"random_{kn}"] = len(cases)
+    run_configured(chk, n_conf, strata)          # last: the random streams of the strata above stay as they were
     return full_cover
 
 
@@ -616,30 +753,44 @@ def main():
                 f"the whole block after each of 2..4 segments of a history (incl. steps where the store is edited out of band "
                 f"and reloaded, accepted or refused), every block checked against the policy in force at that block; "
                 f"(6) stores that repeat a role-assignment line, then single-rule calls (removal of a stored assignment, "
-                f"single adds) with the block after every call")
+                f"single adds) with the block after every call; (7) CONFIGURED enforcers (harness/c15_conf.py; implementation "
+                f"level, clauses on the enforcer's own answers, the configuration in force tracked per block): a role manager "
+                f"with another hierarchy bound L in {{2,3,5,8,12,15,20}} installed through set_role_manager + build_role_links "
+                f"(before the load / after it / late) with chains of L-3..L+2 assignments; util.key_match registered as NAME "
+                f"matching function of g (patterns /user/*, /user/a/*, /grp/* in the user column, concrete paths never written "
+                f"in the policy among the subjects asked about, API queries before or after the enforce calls per subject); "
+                f"util.key_match registered as DOMAIN matching function of g (assignments in d1, d2, '*'), before or AFTER "
+                f"earlier queries have touched some domains; both; 0..2 segments of management calls afterwards")
     chk.assumptions = ["the enforce<->implicit-permission clause is only demanded where the hierarchy is within the depth bound "
                        "(everything reachable from the user is reachable in < 10 assignments; computed independently per case); "
                        "the other clauses are demanded everywhere",
-                       "names are non-empty strings; allow-override effect and the standard RBAC matcher shapes (the property's premise)"]
+                       "names are non-empty strings; allow-override effect and the standard RBAC matcher shapes (the property's premise)",
+                       "configured strata: the depth premise uses the bound of the role manager IN FORCE; wildcards only in the user "
+                       "column of g (with one in the role column the listings legitimately depend on which names were looked up "
+                       "before); permission rules in concrete domains (r.dom == p.dom is equality); no revocation in a history where "
+                       "two assignments share a link (listed findings C14-F14, C04/pattern-and-concrete-domain-share-a-link); "
+                       "get_users_for_role may also list names looked up before that match a user pattern holding the role"]
     chk.trusted = ["hand-written models coq/theories/{Policy,RoleGraph,Mgmt}.v tied by the differential history correspondence",
                    "the four graph-walking queries run under a 2 s CPU-time timer (subclass of casbin.Enforcer calling the real methods)"]
     chk.build(oracle_name="Mgmt")
     if chk.replay_file:
         import json
         c = (json.load(open(chk.replay_file)).get("case") or {})
+        if c.get("layout") == "configured":
+            return replay_conf(chk)
         if c.get("layout") == "blocks":
             if not c.get("model_compared"):
                 chk.oracle = None            # out-of-band store edits are outside the Mgmt model
             return mgmt.replay_case(chk, spec_check_blocks, impl_kwargs=IMPL_KW)
         return mgmt.replay_case(chk, spec_check, impl_kwargs=IMPL_KW)
     if chk.tier == "thorough":
-        chk.exhaustive = run(chk, 1500, nl, nr, None, 200)
+        chk.exhaustive = run(chk, 1500, nl, nr, None, 200, 600)
         vm_check(chk, 200)
     else:
-        chk.exhaustive = run(chk, 120, 3, 2, None, 24)
+        chk.exhaustive = run(chk, 120, 3, 2, None, 24, 60)
         vm_check(chk, 40)
         if (chk.broken() or chk.anchor_changed) and not chk.spec_failures:
-            run(chk, 600, 4, 3, 3000, 120)
+            run(chk, 600, 4, 3, 3000, 120, 300)
     chk.finish()
 
 
